@@ -256,7 +256,7 @@ func runWorker(bin string, prop, tier string, e engine, shard, nshards int, outD
 	sh := fmt.Sprintf("ulimit -v %d; exec timeout -k 10 %d %q \"$@\"", mem*1024, to, bin)
 	cmd := exec.Command("bash", append([]string{"-c", sh, "worker"}, args...)...)
 	cmd.Dir = mcRoot
-	cmd.Env = env()
+	cmd.Env = append(env(), "VSCHED_JOURNAL="+out+".journal")
 	logf, _ := os.Create(out + ".log")
 	cmd.Stdout = logf
 	cmd.Stderr = logf
@@ -266,6 +266,19 @@ func runWorker(bin string, prop, tier string, e engine, shard, nshards int, outD
 	if rerr != nil {
 		lg, _ := os.ReadFile(out + ".log")
 		tail := string(lg)
+		// The Go runtime's "out of memory" cannot be recovered inside the worker. If the worker
+		// journalled the execution it was running, the crash is a finding about that execution.
+		if j, jerr := os.ReadFile(out + ".journal"); jerr == nil && (strings.Contains(tail, "fatal error: out of memory") || strings.Contains(tail, "fatal error: runtime: out of memory")) {
+			var jr map[string]any
+			if json.Unmarshal(j, &jr) == nil {
+				sc, _ := jr["scenario"].(string)
+				r := &rep.Result{Property: prop, Engine: e.Harness + "/" + e.Name}
+				r.Evaluations, r.States, r.Transitions, r.Distinct = 1, 1, 1, 2
+				r.Add(fmt.Sprintf("%s|%s|%s|process-crash", prop, e.Harness, sc),
+					"the worker process died with the Go runtime's unrecoverable 'out of memory' while running this execution (a huge allocation made by the code under test)", jr)
+				return workerOut{res: r}
+			}
+		}
 		if len(tail) > 6000 {
 			tail = tail[len(tail)-6000:]
 		}
